@@ -119,9 +119,11 @@ impl Acc {
         }
         if self.distinct.len() < o.distinct.len() {
             let mut d = o.distinct;
-            d.extend(self.distinct.drain());
+            if d.len() < 4_000_000 {
+                d.extend(self.distinct.drain());
+            }
             self.distinct = d;
-        } else {
+        } else if self.distinct.len() < 4_000_000 {
             self.distinct.extend(o.distinct);
         }
         for (k, (v, n)) in o.violations {
